@@ -1252,6 +1252,187 @@ fn run_nested_slice(rep: &mut Report, model: &mut model::Model, rng: &mut Rng) {
     nested_slice_case(rep, model, &t1, &t2, rng.chance(1, 2), rng.chance(1, 3), n, m);
 }
 
+// ---------------------------------------------------------------------------------------------
+// composite indexes and ORDER BY on their leading columns
+// ---------------------------------------------------------------------------------------------
+
+/// one composite-index case: columns a INTEGER, s VARCHAR, c INTEGER (each NOT NULL or nullable with
+/// NULLs in several rows per leading-key group), an index over 2–3 of them (per-column ASC/DESC,
+/// optional prefix length on s, values sharing the prefix and differing after it, inserted out of
+/// order), ORDER BY on the leading k index columns (directions matching / all reversed / mixed),
+/// unqualified or qualified names, optional WHERE, LIMIT/OFFSET set; compared with an index-free copy
+/// of the table and with the model's sort
+#[allow(clippy::too_many_arguments)]
+fn composite_case(
+    rep: &mut Report,
+    model: &mut model::Model,
+    rng: &mut Rng,
+    not_null: [bool; 3],
+    rows: &[(Option<i64>, Option<String>, Option<i64>)],
+    index_cols: &[(usize, bool, Option<u32>)],
+    order: &[(usize, bool)],
+    qualified: bool,
+    where_sql: &str,
+    tag: &str,
+) {
+    let names = ["a", "s", "c"];
+    let create = format!(
+        "CREATE TABLE t (a INTEGER{}, s VARCHAR(10){}, c INTEGER{}, id INTEGER NOT NULL)",
+        if not_null[0] { " NOT NULL" } else { "" },
+        if not_null[1] { " NOT NULL" } else { "" },
+        if not_null[2] { " NOT NULL" } else { "" }
+    );
+    let vals: Vec<String> = rows
+        .iter()
+        .enumerate()
+        .map(|(i, (a, sv, c))| format!("({}, {}, {}, {})", opt_sql(a), sv.as_ref().map(|x| format!("'{}'", x)).unwrap_or("NULL".into()), opt_sql(c), i))
+        .collect();
+    let insert = format!("INSERT INTO t VALUES {}", vals.join(", "));
+    let index = format!(
+        "CREATE INDEX ix ON t ({})",
+        index_cols.iter().map(|(c, d, pl)| format!("{}{}{}", names[*c], pl.map(|n| format!("({})", n)).unwrap_or_default(), if *d { " DESC" } else { " ASC" })).collect::<Vec<_>>().join(", ")
+    );
+    let order_sql = format!("ORDER BY {}", order.iter().map(|(c, d)| format!("{}{}{}", if qualified { "t." } else { "" }, names[*c], if *d { " DESC" } else { "" })).collect::<Vec<_>>().join(", "));
+    let base = format!("SELECT a, s, c, id FROM t{}", where_sql);
+    let ks: Vec<KeySpec> = order.iter().map(|(c, d)| KeySpec { idx: *c, desc: *d }).collect();
+    let mut dbs = [Db::new(), Db::new()];
+    for (i, db) in dbs.iter_mut().enumerate() {
+        db.keep_log = false;
+        db.must(&create);
+        if !rows.is_empty() {
+            db.must(&insert);
+        }
+        if i == 1 && !db.exec(&index).is_ok() {
+            rep.count("composite_index_rejected");
+        }
+    }
+    let script = format!("{};\n{};\n", create, insert);
+    let len = dbs[0].query(&base).rows().map(|r| r.len()).unwrap_or(0);
+    let mut los = lo_set(rng, len, 4);
+    los.push((Some(3), Some(1)));
+    let mut cx = Ctx { rep, script: script.clone(), kind: "composite-index" };
+    let plain = check_ordered(&mut dbs[0], &base, &order_sql, &ks, &los, &mut cx, &format!("{} no index", tag));
+    cx.script.push_str(&format!("{};\n", index));
+    let indexed = check_ordered(&mut dbs[1], &base, &order_sql, &ks, &los, &mut cx, &format!("{} with index", tag));
+    let mut nontrivial = false;
+    if let (Some((_, fp)), Some((_, fi))) = (&plain, &indexed) {
+        let kp = key_strings(fp, &ks);
+        let unique = all_unique(fp, &ks);
+        nontrivial = kp.len() >= 2;
+        let seq = |r: &Vec<Vec<SqlValue>>| r.iter().map(|x| canon::row(x)).collect::<Vec<_>>();
+        if kp != key_strings(fi, &ks) || bag(fp) != bag(fi) || (unique && seq(fp) != seq(fi)) {
+            cx.rep.fail(
+                FailKind::Oracle,
+                None,
+                &format!("composite-index: the ordered sequence differs with and without the index [{}]", tag),
+                &format!("{}-- query: {} {}\nwithout: {}\nwith:    {}", cx.script, base, order_sql, rows_sx_vals(fp), rows_sx_vals(fi)),
+            );
+        }
+        // LIMIT/OFFSET slices with the index against the slice of the index-free sequence
+        for l in &los {
+            let q = format!("{} {}{}", base, order_sql, lo_sql(l));
+            if let Some(lr) = dbs[1].query(&q).rows() {
+                let m = l.1.unwrap_or(0).min(fp.len());
+                let end = l.0.map(|n| (m + n).min(fp.len())).unwrap_or(fp.len());
+                let want = &fp[m..end];
+                if key_strings(lr, &ks) != key_strings(want, &ks) || (unique && seq(&lr.clone()) != seq(&want.to_vec())) {
+                    cx.rep.fail(
+                        FailKind::Oracle,
+                        None,
+                        &format!("composite-index: LIMIT/OFFSET with the index is not the slice of the index-free ordered sequence [{}]", tag),
+                        &format!("{}-- query: {}\nfull sequence without index: {}\nwith index: {}", cx.script, q, rows_sx_vals(fp), rows_sx_vals(lr)),
+                    );
+                }
+            }
+        }
+        // the model's sort (and slices) of the same rows
+        if where_sql.is_empty() {
+            let input: Vec<Vec<SqlValue>> = rows
+                .iter()
+                .enumerate()
+                .map(|(i, (a, sv, c))| vec![a.map(SqlValue::Integer).unwrap_or(SqlValue::Null), sv.clone().map(SqlValue::Varchar).unwrap_or(SqlValue::Null), c.map(SqlValue::Integer).unwrap_or(SqlValue::Null), SqlValue::Integer(i as i64)])
+                .collect();
+            let ord_sx: Vec<String> = order.iter().map(|(c, d)| format!("((name {}) {})", sx::hex_str(names[*c]), if *d { "desc" } else { "asc" })).collect();
+            let mut variants: Vec<(Option<usize>, Option<usize>)> = vec![(None, None), (Some(3), Some(1))];
+            variants.push(los[0]);
+            for l in variants {
+                let req = format!(
+                    "plain (cols 61 73 63 6964) (rows {}) (sel ((col 0) -) ((col 1) -) ((col 2) -) ((col 3) -)) (order {}) 0 {} {}",
+                    rows_sx_vals(&input),
+                    ord_sx.join(" "),
+                    l.0.map(|n| n.to_string()).unwrap_or("-".into()),
+                    l.1.map(|n| n.to_string()).unwrap_or("-".into())
+                );
+                let reply = model.ask(&req);
+                if let Some(er) = dbs[1].query(&format!("{} {}{}", base, order_sql, lo_sql(&l))).rows() {
+                    compare_model(&reply, er, &ks, unique, &mut cx, &format!("{} limit {:?} offset {:?}", tag, l.0, l.1), &req);
+                }
+            }
+        }
+    }
+    cx.rep.count("composite_index_cases");
+    cx.rep.case(&format!("composite {} {} {} {}", script, index, base, order_sql), nontrivial);
+}
+
+const S_POOL: &[&str] = &["abz", "abc", "aba", "ab", "abd", "b", "ba", "a", "abcz", "abca"];
+
+fn run_composite(rep: &mut Report, model: &mut model::Model, rng: &mut Rng) {
+    let not_null = [rng.chance(1, 2), rng.chance(1, 2), rng.chance(1, 2)];
+    let n = *rng.pick(&[3usize, 6, 10, 14]);
+    let unique = rng.chance(1, 2);
+    // index: 2 or 3 distinct columns in random order
+    let mut cols = vec![0usize, 1, 2];
+    rng.shuffle(&mut cols);
+    cols.truncate(if rng.chance(1, 2) { 2 } else { 3 });
+    let all_desc = rng.chance(1, 3);
+    let all_asc = !all_desc && rng.chance(1, 2);
+    let index_cols: Vec<(usize, bool, Option<u32>)> = cols
+        .iter()
+        .map(|c| (*c, if all_desc { true } else if all_asc { false } else { rng.chance(1, 2) }, if *c == 1 && rng.chance(1, 2) { Some(rng.range(1, 3) as u32) } else { None }))
+        .collect();
+    let k = rng.range(1, index_cols.len() as i64) as usize;
+    let mode = rng.below(4);
+    let order: Vec<(usize, bool)> = index_cols[..k].iter().map(|(c, d, _)| (*c, match mode { 0 | 1 => *d, 2 => !*d, _ => rng.chance(1, 2) })).collect();
+    let mut rows: Vec<(Option<i64>, Option<String>, Option<i64>)> = vec![];
+    let mut seen: Vec<String> = vec![];
+    for _ in 0..n * 3 {
+        if rows.len() >= n {
+            break;
+        }
+        let a = if !not_null[0] && rng.chance(1, 4) { None } else { Some(rng.range(1, 3)) };
+        let sv = if !not_null[1] && rng.chance(1, 4) { None } else { Some((*rng.pick(S_POOL)).to_string()) };
+        let c = if !not_null[2] && rng.chance(1, 4) { None } else { Some(rng.range(0, 3)) };
+        let key: String = order.iter().map(|(col, _)| match col { 0 => format!("{:?}", a), 1 => format!("{:?}", sv), _ => format!("{:?}", c) }).collect::<Vec<_>>().join("|");
+        if unique && seen.contains(&key) {
+            continue;
+        }
+        seen.push(key);
+        rows.push((a, sv, c));
+    }
+    let where_sql = if rng.chance(1, 4) { format!(" WHERE {} >= {}", ["a", "c"][rng.below(2) as usize], rng.range(0, 2)) } else { String::new() };
+    let qualified = rng.chance(1, 5);
+    composite_case(rep, model, rng, not_null, &rows, &index_cols, &order, qualified, &where_sql, "generated");
+}
+
+fn probe_composite(rep: &mut Report, model: &mut model::Model, rng: &mut Rng) {
+    let s = |x: &str| Some(x.to_string());
+    // (a NOT NULL, c nullable) with NULLs inside each a-group: ORDER BY a, c
+    let rows1 = vec![(Some(2), s("x"), None), (Some(1), s("x"), Some(2)), (Some(1), s("y"), None), (Some(2), s("y"), Some(1)), (Some(1), s("z"), Some(1)), (Some(2), s("z"), None), (Some(1), s("w"), None)];
+    composite_case(rep, model, rng, [true, true, false], &rows1, &[(0, false, None), (2, false, None)], &[(0, false), (2, false)], false, "", "ASC index (a NOT NULL, c nullable), ORDER BY a, c");
+    composite_case(rep, model, rng, [true, true, false], &rows1, &[(0, true, None), (2, true, None)], &[(0, true), (2, true)], false, "", "DESC index, ORDER BY a DESC, c DESC");
+    composite_case(rep, model, rng, [true, true, false], &rows1, &[(0, false, None), (2, false, None)], &[(0, false)], false, "", "ORDER BY leading column only");
+    // prefix length on the second column: values share the prefix, differ after it, inserted out of order
+    let rows2 = vec![(Some(1), s("abz"), Some(0)), (Some(1), s("abc"), Some(1)), (Some(2), s("abd"), Some(2)), (Some(1), s("aba"), Some(3)), (Some(2), s("aba"), Some(4)), (Some(1), s("ab"), Some(5)), (Some(2), s("abcz"), Some(6)), (Some(2), s("abca"), Some(7))];
+    for pl in [1u32, 2, 3] {
+        composite_case(rep, model, rng, [true, true, true], &rows2, &[(0, false, None), (1, false, Some(pl))], &[(0, false), (1, false)], false, "", "ASC index (a, s(n)), ORDER BY a, s");
+        composite_case(rep, model, rng, [true, true, true], &rows2, &[(0, true, None), (1, true, Some(pl))], &[(0, true), (1, true)], false, "", "DESC index (a DESC, s(n) DESC), ORDER BY a DESC, s DESC");
+        composite_case(rep, model, rng, [true, true, true], &rows2, &[(1, false, Some(pl)), (0, false, None)], &[(1, false), (0, false)], false, "", "ASC index (s(n), a), ORDER BY s, a");
+    }
+    composite_case(rep, model, rng, [true, true, true], &rows2, &[(0, false, None), (1, false, Some(2)), (2, false, None)], &[(0, false), (1, false), (2, false)], false, " WHERE a >= 1", "three-column index with a prefix in the middle, WHERE on the leading column");
+    composite_case(rep, model, rng, [true, true, true], &rows2, &[(0, false, None), (1, false, None)], &[(0, false), (1, false)], true, "", "qualified names");
+    composite_case(rep, model, rng, [true, true, true], &rows2, &[(0, false, None), (1, true, None)], &[(0, false), (1, true)], false, "", "mixed directions matching the index");
+}
+
 /// regression probe for 1db75cd3: SIMD filter path (>= 100 rows, WHERE) with a NULL in the first row's VARCHAR
 fn probe_simd(rep: &mut Report) {
     let mut db = Db::new();
@@ -1286,9 +1467,17 @@ fn main() {
     run_probes(&mut rep);
     probe_simd(&mut rep);
     probe_nested_slices(&mut rep, &mut model);
-    let n = args.n(1500, 40000);
+    {
+        let mut rp = rng.fork();
+        probe_composite(&mut rep, &mut model, &mut rp);
+    }
+    let n = args.n(1200, 40000);
     for i in 0..n {
         let mut r = rng.fork();
+        if i % 6 == 3 {
+            let mut r6 = r.fork();
+            run_composite(&mut rep, &mut model, &mut r6);
+        }
         if i % 16 == 0 {
             let mut r4 = r.fork();
             run_nested_slice(&mut rep, &mut model, &mut r4);
